@@ -46,6 +46,12 @@ def replay_c11(data):
         bad = r["exc"] not in (None, "ValueError", "SyntaxError") or bool(r["audit"])
         print("still failing" if bad else "no longer failing")
         return 1 if bad else 0
+    if case.get("kind") == "fixed-witness" and "n" in case:
+        r = C.run_impl("c11_impl.py", {"cases": [["blowup", int(n)] for n in case["n"]], "limit": 30})
+        print("real _eval_const('2**2**n', {}) for n =", case["n"], ":", r)
+        bad = any(x.get("bits") is not None or x.get("exc") != "ValueError" for x in r)
+        print("still failing" if bad else "no longer failing")
+        return 1 if bad else 0
     if "expr" in case:
         from harness.props import c03 as L
         env = {k: (L.MARK if v == "<marker>" else v) for k, v in (case.get("env") or {}).items()}
